@@ -7,7 +7,7 @@ from vf.gen_args import typed_equal
 LEVEL = "exploration"
 RULE = (
     "Hypothesis: command tree (depth <= 3, fan-out <= 3, aliases, default / anonymous / hidden / disabled commands, "
-    "arguments and options stacked legally along every path) x bare or default application config x a line built by "
+    "arguments and options stacked legally along every path, options named like the command's own sub-commands) x bare or default application config x a line built by "
     "walking a random path (names or aliases) and spelling a valid assignment for the intended command (its default "
     "sub-command's name omitted) with options after the path and an optional '--' tail; line kinds: valid, "
     "wrong token after a valid prefix, the name of an anonymous or disabled command after the path, undefined first token, partial path without arguments, tail after '--' that "
@@ -52,7 +52,9 @@ def real_outcome(app, tokens):
     except CannotResolveCommandException as e:
         msg = str(e)
         if "is not defined" in msg:
-            return ("undefined", msg.split('"')[1]), None
+            import re
+
+            return ("undefined", re.match(r'The command "(.*)" is not defined\.', msg, re.S).group(1)), None
         if "No default command" in msg:
             return ("no-default",), None
         return ("resolve-error", msg), None
@@ -175,7 +177,7 @@ def check_line(ctx, case):
 @st.composite
 def line_case(draw, descriptions=False):
     cfgk = draw(st.sampled_from(["bare", "bare", "default"]))
-    tree = draw(gen_tree.tree_st())
+    tree = draw(gen_tree.tree_st(collide=True))
     return draw(line_for(tree, cfgk))
 
 
@@ -242,6 +244,8 @@ def line_for(draw, tree, cfgk):
         case["expect"] = None
     elif kind == "tail":
         names = [c["name"] for c in tree["commands"]] + ["help"]
+        subs_here = [c["name"] for c in (node["subs"] if node is not None else tree["commands"])]
+        names += ["--" + n for n in subs_here] + subs_here
         extra = draw(st.lists(st.sampled_from(names + ["--foo", "-h"]), min_size=1, max_size=2))
         tokens = tokens + ([] if "--" in tokens else ["--"]) + extra
         case["expect"] = None
